@@ -58,6 +58,73 @@ def defloat(sx):
     return "(err ValueError)" if bad else sx
 
 
+def _parse(sx):
+    """s-expression text -> nested lists of atoms"""
+    toks = sx.replace("(", " ( ").replace(")", " ) ").split()
+    pos = [0]
+
+    def rd():
+        t = toks[pos[0]]
+        pos[0] += 1
+        if t != "(":
+            return t
+        out = []
+        while toks[pos[0]] != ")":
+            out.append(rd())
+        pos[0] += 1
+        return out
+    return rd()
+
+
+def _pykey(t):
+    """the Python value a rendered key/element denotes, for equality and hashing (1 == True == 1.0)"""
+    k = t[0]
+    if k == "none":
+        return None
+    if k in ("true", "false"):
+        return k == "true"
+    if k in ("int", "long"):
+        return int(t[1])
+    if k == "float":
+        import struct
+        x = struct.unpack(">d", bytes.fromhex(t[1]))[0]
+        return x if x == x else ("nan", t[1])
+    if k in ("tuple",):
+        return tuple(_pykey(x) for x in t[1:])
+    if k == "fset":
+        return frozenset(_pykey(x) for x in t[1:])
+    return (k,) + tuple(str(x) for x in t[1:])
+
+
+def _unparse(t):
+    return t if isinstance(t, str) else "(" + " ".join(_unparse(x) for x in t) + ")"
+
+
+def pysem(t):
+    """apply Python's container semantics to a tree the Model built from a stream: a dict keeps the first key object
+    and the last value of equal keys, a set the first of equal elements (the Model keeps every item it read)"""
+    if isinstance(t, str) or not t:
+        return t
+    k = t[0]
+    if k == "dict":
+        seen = {}
+        for kv in t[1:]:
+            kk, vv = pysem(kv[0]), pysem(kv[1])
+            key = _pykey(kk)
+            if key in seen:
+                seen[key][1] = vv
+            else:
+                seen[key] = [kk, vv]
+        return ["dict"] + sorted(([a, b] for a, b in seen.values()), key=_unparse)
+    if k in ("set", "fset"):
+        seen = {}
+        for x in t[1:]:
+            x = pysem(x)
+            seen.setdefault(_pykey(x), x)
+        return [k] + sorted(seen.values(), key=_unparse)
+    return [k] + [pysem(x) for x in t[1:]]
+
+
 def malformed(rng, streams, n):
     """truncations and single-byte mutations of well-formed version-0 streams (a separate, mostly-invalid input stream)"""
     out = []
@@ -159,6 +226,9 @@ def run(ctx):
                 else:
                     got = mcanon.render(a[1])
                 want = m if m.startswith("(err") else defloat(m.split(" ", 1)[1])
+                if not want.startswith("(err") and ("(dict" in want or "set" in want):
+                    want = _unparse(pysem(_parse(want)))
+                    got = _unparse(pysem(_parse(got))) if not got.startswith("(err") else got
                 kinds[got if a[0] == "err" else "ok"] = kinds.get(got if a[0] == "err" else "ok", 0) + 1
                 if got != want:
                     # a bad float text raises ValueError at once in the implementation, the Model reads on: unjudged
